@@ -22,8 +22,7 @@ class UnitNode(BaseNode):
         if parser.is_parsed('part_reference'):
             # import a remote source
             units = env.request(parser.value_ref, namespace=Namespace.UNITS)
-            for key,val in units.items():
-                env.units.append(key, val.unit)
+            env.units.extend(units)
         else:
             parser.part_name(path=False) # parse name
             parser.part_equal()          # parse equal sign
